@@ -27,6 +27,95 @@ class Compiled:
         return self.program is not None
 
 
+def split_for_import(module, libname="callee_lib"):
+    """(library Module, main Module): the non-exported functions moved into a library that the rest imports.  None when
+    the program cannot be cut that way (a helper touching a global or calling an exported function, structure types,
+    no helper, helpers nobody else calls)."""
+    from .lang import N, Call, Var, Module
+    if module.structs or module.imports:
+        return None
+    helpers = [f for f in module.funcs if not f.exported]
+    rest = [f for f in module.funcs if f.exported]
+    if not helpers or not rest:
+        return None
+    gnames = {n for _, n in module.globals}
+    exported_names = {f.name for f in rest}
+    bad = []
+
+    def walk(n, local_names):
+        if isinstance(n, Call) and n.name in exported_names:
+            bad.append(n.name)
+        if isinstance(n, Var) and n.name in gnames and n.name not in local_names:
+            bad.append(n.name)
+        if isinstance(n, list):
+            for x in n:
+                walk(x, local_names)
+        elif isinstance(n, N):
+            for k in n.__slots__:
+                if k == "fn":
+                    continue
+                v = getattr(n, k)
+                if isinstance(v, (N, list)):
+                    walk(v, local_names)
+
+    for h in helpers:
+        if {n for _, n in h.params} & gnames:
+            return None
+        walk(h.body, set())
+    if bad:
+        return None
+    return Module(funcs=helpers), Module(globals=list(module.globals), funcs=rest, imports=[libname])
+
+
+class CompiledSplit:
+    """two sources: a library compiled and stored first, and a main module importing it by name, compiled next to it and
+    linked through the filesystem loader (all inside a private directory)"""
+
+    def __init__(self, lib_source, main_source, libname="callee_lib", optimize=False):
+        import os
+        import pickle
+        import shutil
+        import tempfile
+        self.source = main_source
+        self.optimize = optimize
+        self.program = None
+        self.link_exc = None
+        self.lib_out = None
+        tmp = tempfile.mkdtemp(prefix="nslverif_split_")
+        old = os.getcwd()
+        try:
+            os.chdir(tmp)
+            self.lib_out = nslapi.compile_source(lib_source, optimize=optimize)
+            self.out = self.lib_out
+            if not self.lib_out.usable:
+                return
+            with open(libname + ".nslir", "wb") as f:
+                pickle.dump(self.lib_out.ir, f)
+            self.out = nslapi.compile_source(main_source, optimize=optimize)
+            if self.out.usable:
+                try:
+                    with nslapi.quiet():
+                        self.program = nslapi.link([self.out.ir], loader=nslapi.LinearIR.FilesystemModuleLoader())
+                except Exception as e:
+                    self.link_exc = nslapi.exc_info(e)
+        finally:
+            os.chdir(old)
+            shutil.rmtree(tmp, ignore_errors=True)
+
+    @property
+    def runnable(self):
+        return self.program is not None
+
+
+class _Sources(str):
+    """the main module's text, carrying the texts of all modules of a split program for the replay record"""
+
+    def __new__(cls, text, sources):
+        o = str.__new__(cls, text)
+        o.sources = dict(sources)
+        return o
+
+
 def copy_value(v):
     return sem.deep_copy(v)
 
@@ -87,7 +176,7 @@ def run_vm(compiled, fname, args, globals_init, obs, budget):
 
 
 class RefRun:
-    __slots__ = ("status", "value", "globals", "steps", "why", "float_ops", "max_mag", "calls")
+    __slots__ = ("status", "value", "globals", "steps", "why", "float_ops", "max_mag", "calls", "sum_ops")
 
 
 def run_ref(module, fname, args, globals_init, f32_mode=False, max_steps=400000, floor_mod=False):
@@ -110,6 +199,7 @@ def run_ref(module, fname, args, globals_init, f32_mode=False, max_steps=400000,
         r.why = "python recursion"
     r.steps = it.steps
     r.float_ops = it.float_ops
+    r.sum_ops = it.sum_ops
     r.max_mag = it.max_mag
     r.calls = it.calls
     return r
@@ -144,14 +234,21 @@ UNDEF_EVENTS = ("read-of-undefined-value", "operand-not-a-value", "read-of-undec
 
 
 def check_program(R, obs, name, module, fname, inputs, family, require_accept=True, optimize=False, tol=1e-9,
-                  extra_events=(), source=None, family_of=None):
+                  extra_events=(), source=None, family_of=None, split=None):
     """(`fname` may be a list of (function name, inputs) pairs with inputs=None: one compilation, many calls;
     family_of(fname) then gives the mechanism family per function.)
     Compile `module` with the real compiler, run `fname` on every input on the real VM under the
     observer, compare with RefSem.  Records violations in R.  Returns a dict:
     source, accepted, runnable, compiled (diff.Compiled), runs [(RefRun|None, VMRun|None) per input], bad (count)."""
     src = source if source is not None else print_module(module)
-    comp = Compiled(src, optimize=optimize)
+    if split is not None:
+        # the same program with its helper functions in an imported library: RefSem still runs the one-module tree
+        lib_m, main_m = split
+        lib_src, src = print_module(lib_m), print_module(main_m)
+        comp = CompiledSplit(lib_src, src, main_m.imports[0], optimize=optimize)
+        src = _Sources(src, {"main": src, main_m.imports[0]: lib_src})
+    else:
+        comp = Compiled(src, optimize=optimize)
     out = {"source": src, "accepted": comp.out.accepted, "runnable": False, "compiled": comp, "runs": [], "bad": 0}
     R.count("programs")
     if not comp.out.accepted:
@@ -160,14 +257,14 @@ def check_program(R, obs, name, module, fname, inputs, family, require_accept=Tr
             rj = comp.out.reject
             R.violation("rejected:%s:%s:%s" % (family, rj["name"], rj["cls"]),
                         "well-typed program rejected by %s (%s %s)" % (rj["name"], rj["cls"], rj["msg"][:80]),
-                        {"sources": {"main": src}, "case": name, "reject": rj})
+                        {"sources": getattr(src, "sources", {"main": src}), "case": name, "reject": rj})
             out["bad"] += 1
         return out
     if not comp.runnable:
         exc = comp.out.post_exc or comp.link_exc
         R.violation("compile-crash:%s:%s:%s" % (family, exc["cls"], exc.get("where")),
                     "accepted program fails after the front end: %s %s" % (exc["cls"], exc["msg"][:80]),
-                    {"sources": {"main": src}, "case": name, "exc": exc})
+                    {"sources": getattr(src, "sources", {"main": src}), "case": name, "exc": exc})
         out["bad"] += 1
         return out
     out["runnable"] = True
@@ -197,7 +294,11 @@ def _run_calls(R, obs, name, module, comp, src, fname, inputs, family, optimize,
         R.count("vm_instructions", vm.steps)
         if vm.harness:
             R.inconclusive.append("observer error: " + vm.harness[0])
-        bad = compare(ref, vm, gnames, tol)
+        # every float operation is written in the source and both sides compute in double precision: results must be
+        # identical, except that the order in which a matrix product adds its terms is not written anywhere
+        exact = ref.sum_ops == 0
+        R.count("compared_exactly" if exact else "compared_within_tolerance")
+        bad = compare(ref, vm, gnames, 0.0 if exact else tol)
         watch = UNDEF_EVENTS + tuple(extra_events)
         for ev in vm.events:
             if ev["kind"] in watch and bad is None:
@@ -213,7 +314,7 @@ def _run_calls(R, obs, name, module, comp, src, fname, inputs, family, optimize,
             else:
                 key = "mismatch:%s" % family
             R.violation(key, "%s: %s" % (name, bad),
-                        {"sources": {"main": src}, "case": name, "function": fname, "optimize": optimize,
+                        {"sources": getattr(src, "sources", {"main": src}), "case": name, "function": fname, "optimize": optimize,
                          "inputs": {"args": args, "globals": gl},
                          "expected": {"value": ref.value, "globals": ref.globals},
                          "observed": {"status": vm.status, "value": vm.value, "globals": vm.globals, "exc": vm.exc},
@@ -223,7 +324,11 @@ def _run_calls(R, obs, name, module, comp, src, fname, inputs, family, optimize,
 def replay_program(case):
     """generic replay of a violation recorded by check_program"""
     src = case["sources"]["main"]
-    comp = Compiled(src, optimize=bool(case.get("optimize")))
+    libs = [k for k in case["sources"] if k != "main"]
+    if libs:
+        comp = CompiledSplit(case["sources"][libs[0]], src, libs[0], optimize=bool(case.get("optimize")))
+    else:
+        comp = Compiled(src, optimize=bool(case.get("optimize")))
     detail = {"gate": comp.out.gate, "reject": comp.out.reject, "post": comp.out.post_exc}
     if not comp.runnable:
         return True, detail
